@@ -10,7 +10,7 @@ use proptest::prelude::*;
 use serde_json::Value;
 use unic_locale::Locale;
 
-pub const RULE: &str = "Domain: histories of public API calls (assign language/script/region from parsed text, set/clear/has variants, set/remove/clear/get keywords, set/remove/has/clear attributes, set/clear tlang, set/remove/clear/get tfields, add/remove/has/clear private tags, maximize, minimize; also *loc = loc.clone(), clone_from of a parsed locale / language identifier and a mem::take round trip of the id) with valid, colliding, boundary and invalid arguments, starting from Locale::default() or from a parsed well-formed locale: every sequence of length <= 3 (quick) / <= 4 (thorough) over a fixed 33-operation alphabet from two start states (exhaustive), proptest-generated sequences of length 0-40 from random starts, focused sequences on one collection, and bulk sequences of 40-160 operations on one collection with generated arguments (collections of several dozen entries; removals and queries name earlier insertions). After every step the call's result, every getter, is_empty of each list and of the map, has_*, to_string() == canon(model), the strict canonical recogniser, and parse(to_string()) == value are compared with a set/map model; an Err step must leave the value unchanged. Non-trivial = the history holds >= 2 successful insertions into one collection followed by a removal or membership query on it. Exhaustive sequences distinct by construction; random ones counted through a hash set.";
+pub const RULE: &str = "Domain: histories of public API calls (assign language/script/region from parsed text, set/clear/has variants, set/remove/clear/get keywords, set/remove/has/clear attributes, set/clear tlang, set/remove/clear/get tfields, add/remove/has/clear private tags, maximize, minimize; also *loc = loc.clone(), clone_from of a parsed locale / language identifier / extension map / each extension list and a mem::take round trip of the id) with valid, colliding, boundary and invalid arguments, starting from Locale::default() or from a parsed well-formed locale: every sequence of length <= 3 (quick) / <= 4 (thorough) over a fixed 35-operation alphabet from two start states (exhaustive), proptest-generated sequences of length 0-40 from random starts, focused sequences on one collection, and bulk sequences of 40-160 operations on one collection with generated arguments (collections of several dozen entries; removals and queries name earlier insertions). After every step the call's result, every getter, is_empty of each list and of the map, has_*, to_string() == canon(model), the strict canonical recogniser, and parse(to_string()) == value are compared with a set/map model; an Err step must leave the value unchanged. Non-trivial = the history holds >= 2 successful insertions into one collection followed by a removal or membership query on it. Exhaustive sequences distinct by construction; random ones counted through a hash set.";
 
 #[cfg(feature = "likely")]
 pub struct LikelyRef {
